@@ -1406,7 +1406,7 @@ func (c *Ctx) c07Direct(or *Oracle, useOracle bool) {
 					for _, preflush := range []bool{false, true} {
 						w := &c07Writer{}
 						var pr probe
-						var flushedAfterName, flushedAfterValue, flushedAfterOpen bool
+						var flushedAfterName, flushedAfterValue, flushedAfterOpen, second, secondOK bool
 						opn := fmt.Sprintf("direct/opts%d/first=%s/name=%s/value=%s/preflush=%v", oi, first, nm, val, preflush)
 						if p := guard(func() {
 							enc := jsontext.NewEncoder(w, os...)
@@ -1444,6 +1444,12 @@ func (c *Ctx) c07Direct(or *Oracle, useOracle bool) {
 								}
 								pr.ok = xe.UnwriteEmptyObjectMember(prev)
 								pr.after = bytes.Clone(xe.Buf)
+								if pr.ok && first != "" && preflush {
+									// undisciplined: a SECOND UnwriteEmptyObjectMember directly after the first one
+									// (theorem flush_indep_undisciplined_full): it may only retract an empty `first`
+									second = true
+									secondOK = xe.UnwriteEmptyObjectMember(nil)
+								}
 								if pr.ok { // the object continues as if the member had never been written
 									must(enc.WriteValue(jsontext.Value(`"z"`)))
 									must(enc.WriteValue(jsontext.Value(`1`)))
@@ -1484,7 +1490,13 @@ func (c *Ctx) c07Direct(or *Oracle, useOracle bool) {
 							var want bytes.Buffer
 							we := jsontext.NewEncoder(&want, os...)
 							we.WriteToken(jsontext.BeginObject)
-							if first != "" {
+							if second {
+								c.Hit("direct:second-unwrite")
+								if secondOK != (first == "[]") {
+									c.c07V("empty-detect", "encoderState.UnwriteEmptyObjectMember(direct,second call)", pr.before, c07Detail("case", opn, "unwrote", secondOK, "first", first))
+								}
+							}
+							if first != "" && !secondOK {
 								we.WriteValue(jsontext.Value(`"first"`))
 								we.WriteValue(jsontext.Value(first))
 							}
